@@ -1786,3 +1786,248 @@ Proof.
   destruct (replace_server_duid_spec h' a' x b' sd Lh' Oa' Na' Hx Hsd) as [R2 G2].
   repeat split; try assumption; rewrite ?R1, ?R2; assumption.
 Qed.
+
+(* ================================================================== RewriteV6Lifetimes: closed specification *)
+(* A DHCPv6 option list in which IA_NA / IA_PD (codes 3 / 25) carry IAID, T1|T2 and a well-formed list of sub-options
+   (IAADDR 5, IAPREFIX 26, status, ...; no IA nested inside an IA), everything else is a plain option. *)
+Inductive opt6s :=
+| Plain (c : N) (d : bytes)
+| IA (c : N) (iaid t12 : bytes) (subs : list (N * bytes)).
+Definition enc_o (o : opt6s) : N * bytes :=
+  match o with Plain c d => (c, d) | IA c iaid t12 subs => (c, iaid ++ t12 ++ enc6 subs) end.
+Definition not_ia (o : N * bytes) : Prop := fst o <> 3 /\ fst o <> 25.
+Definition opt6s_ok (o : opt6s) : Prop :=
+  match o with
+  | Plain c d => not_ia (c, d) /\ opt6_ok (c, d)
+  | IA c iaid t12 subs => (c = 3 \/ c = 25) /\ length iaid = 4%nat /\ length t12 = 8%nat /\
+                          Forall opt6_ok subs /\ Forall not_ia subs /\ blen (iaid ++ t12 ++ enc6 subs) < 65536
+  end.
+(* the intended rewrite, written without any reference to the model: IAADDR (>= 24 bytes): bytes 16..23 := pref|valid;
+   IAPREFIX (>= 8 bytes): bytes 0..7 := pref|valid; everything else untouched *)
+Definition leaf (pref valid : N) (o : N * bytes) : N * bytes :=
+  let '(c, d) := o in
+  if c =? 5 then (if (24 <=? length d)%nat then (c, firstn 16 d ++ put32 pref ++ put32 valid ++ skipn 24 d) else (c, d))
+  else if c =? 26 then (if (8 <=? length d)%nat then (c, put32 pref ++ put32 valid ++ skipn 8 d) else (c, d))
+  else (c, d).
+Definition spec_o (t1 t2 pref valid : N) (o : opt6s) : opt6s :=
+  match o with
+  | Plain c d => let '(c', d') := leaf pref valid (c, d) in Plain c' d'
+  | IA c iaid t12 subs => IA c iaid (put32 t1 ++ put32 t2) (map (leaf pref valid) subs)
+  end.
+
+Lemma rw_opt_leaf : forall v dp pref valid o, not_ia o -> rw_opt v dp pref valid o = leaf pref valid o.
+Proof.
+  intros v dp pref valid [c d] [H3 H25]. cbn [fst] in *. unfold rw_opt, rw_data, leaf. cbn [fst snd].
+  destruct (N.eqb_spec c 3); [contradiction|]. destruct (N.eqb_spec c 25); [contradiction|]. cbn [orb].
+  destruct (c =? 5).
+  - destruct (24 <=? length d)%nat; reflexivity.
+  - destruct (c =? 26); [destruct (8 <=? length d)%nat|]; reflexivity.
+Qed.
+Lemma map_rw_leaf : forall v dp pref valid subs, Forall not_ia subs ->
+  map (rw_opt v dp pref valid) subs = map (leaf pref valid) subs.
+Proof.
+  intros v dp pref valid subs H. induction subs as [|o r IH]; [reflexivity|]. inversion H; subst. cbn [map].
+  rewrite rw_opt_leaf by assumption. rewrite IH by assumption. reflexivity.
+Qed.
+Lemma leaf_fst : forall pref valid o, fst (leaf pref valid o) = fst o.
+Proof.
+  intros pref valid [c d]. unfold leaf. destruct (c =? 5); [destruct (24 <=? length d)%nat; reflexivity|].
+  destruct (c =? 26); [destruct (8 <=? length d)%nat|]; reflexivity.
+Qed.
+Lemma enc6_length_ge : forall os, (length os <= length (enc6 os))%nat.
+Proof.
+  induction os as [|o q IH]; [cbn; lia|]. rewrite enc6_cons, app_length. unfold opt6. rewrite !app_length. cbn [length put16]. lia.
+Qed.
+Lemma rw_opt_enc_o : forall v dp pref valid o, opt6s_ok o ->
+  rw_opt v (S dp) pref valid (enc_o o) = enc_o (spec_o (pref_t1 pref) (pref_t2 v pref) pref valid o).
+Proof.
+  intros v dp pref valid [c d|c iaid t12 subs] Hok; cbn [opt6s_ok] in Hok.
+  - destruct Hok as [Hn _]. cbn [enc_o spec_o]. rewrite rw_opt_leaf by assumption. destruct (leaf pref valid (c, d)). reflexivity.
+  - destruct Hok as [Hc [Li [Lt [Os [Ns Hb]]]]]. cbn [enc_o spec_o]. unfold rw_opt. cbn [fst snd]. f_equal. unfold rw_data.
+    assert (E : ((c =? 3) || (c =? 25))%bool = true) by (destruct Hc as [->| ->]; reflexivity). rewrite E.
+    assert (Ll : (12 <= length (iaid ++ t12 ++ enc6 subs))%nat) by (rewrite !app_length; lia).
+    destruct (Nat.leb_spec 12 (length (iaid ++ t12 ++ enc6 subs))); [|lia].
+    rewrite firstn_exact by assumption.
+    replace (iaid ++ t12 ++ enc6 subs) with ((iaid ++ t12) ++ enc6 subs) at 2 by (rewrite <- app_assoc; reflexivity).
+    rewrite skipn_exact by (rewrite app_length; lia).
+    pose proof (enc6_length_ge subs) as Hge.
+    replace (length (iaid ++ t12 ++ enc6 subs)) with (length subs + (length (iaid ++ t12 ++ enc6 subs) - length subs))%nat
+      by (rewrite !app_length; lia).
+    rewrite rewrite6_enc6 by assumption. rewrite map_rw_leaf by assumption. rewrite <- !app_assoc. reflexivity.
+Qed.
+Lemma enc_o_ok : forall o, opt6s_ok o -> opt6_ok (enc_o o).
+Proof.
+  intros [c d|c iaid t12 subs] H; cbn [opt6s_ok enc_o] in *; [tauto|]. destruct H as [Hc [_ [_ [_ [_ Hb]]]]].
+  split; cbn [fst snd]; [destruct Hc as [->| ->]; lia|exact Hb].
+Qed.
+
+Lemma rewrite_v6_lifetimes_nested : forall v h4 os pref valid, length h4 = 4%nat -> Forall opt6s_ok os ->
+  rewrite_v6_lifetimes v (h4 ++ enc6 (map enc_o os)) pref valid =
+  h4 ++ enc6 (map enc_o (map (spec_o (pref_t1 pref) (pref_t2 v pref) pref valid) os)).
+Proof.
+  intros v h4 os pref valid L4 Hok.
+  assert (Hok6 : Forall opt6_ok (map enc_o os)).
+  { apply Forall_forall. intros x Hx. apply in_map_iff in Hx. destruct Hx as [o [<- Ho]]. apply enc_o_ok. eapply Forall_forall; eassumption. }
+  unfold rewrite_v6_lifetimes. rewrite app_length, L4.
+  destruct (Nat.ltb_spec (4 + length (enc6 (map enc_o os))) 4); [lia|].
+  rewrite firstn_exact, skipn_exact by assumption. f_equal.
+  pose proof (enc6_length_ge (map enc_o os)) as Hge.
+  replace (S (4 + length (enc6 (map enc_o os)))) with (length (map enc_o os) + (S (4 + length (enc6 (map enc_o os))) - length (map enc_o os)))%nat at 2 by lia.
+  change (S (4 + length (enc6 (map enc_o os)))) with (S (4 + length (enc6 (map enc_o os)))).
+  rewrite rewrite6_enc6 by assumption. f_equal. rewrite !map_map. apply map_ext_in. intros o Ho.
+  apply rw_opt_enc_o. eapply Forall_forall; eassumption.
+Qed.
+
+(* the same through the independent TLV decoder: top level and inside every IA *)
+Lemma spec_o_ok : forall t1 t2 pref valid o, opt6s_ok o -> opt6_ok (enc_o (spec_o t1 t2 pref valid o)) /\
+  match spec_o t1 t2 pref valid o with IA _ _ _ subs' => Forall opt6_ok subs' | Plain _ _ => True end.
+Proof.
+  assert (Hleaf : forall pref valid o, opt6_ok o -> opt6_ok (leaf pref valid o)).
+  { intros pref valid [c d] [Hc Hd]. cbn [fst snd] in *. unfold leaf.
+    destruct (c =? 5).
+    - destruct (Nat.leb_spec 24 (length d)); split; cbn [fst snd]; try assumption.
+      unfold blen in *. rewrite !app_length, firstn_length, skipn_length. cbn [length put32]. lia.
+    - destruct (c =? 26); [|split; assumption].
+      destruct (Nat.leb_spec 8 (length d)); split; cbn [fst snd]; try assumption.
+      unfold blen in *. rewrite !app_length, skipn_length. cbn [length put32]. lia. }
+  assert (Hlen : forall pref valid subs, length (enc6 (map (leaf pref valid) subs)) = length (enc6 subs)).
+  { intros pref valid subs. induction subs as [|[c d] r IH]; [reflexivity|]. cbn [map]. rewrite !enc6_cons, !app_length, IH. f_equal.
+    unfold opt6. rewrite !app_length. cbn [length put16]. cbn [snd]. f_equal. f_equal.
+    unfold leaf. destruct (c =? 5).
+    - destruct (Nat.leb_spec 24 (length d)); cbn [snd]; [|reflexivity]. rewrite !app_length, firstn_length, skipn_length. cbn [length put32]. lia.
+    - destruct (c =? 26); [|reflexivity].
+      destruct (Nat.leb_spec 8 (length d)); cbn [snd]; [|reflexivity]. rewrite !app_length, skipn_length. cbn [length put32]. lia. }
+  intros t1 t2 pref valid [c d|c iaid t12 subs] H; cbn [opt6s_ok spec_o] in *.
+  - destruct H as [_ H]. pose proof (Hleaf pref valid (c, d) H) as Hl. destruct (leaf pref valid (c, d)). split; [exact Hl|exact I].
+  - destruct H as [Hc [Li [Lt [Os [Ns Hb]]]]]. split.
+    + split; cbn [enc_o fst snd]; [destruct Hc as [->| ->]; lia|].
+      unfold blen in *. rewrite !app_length in *. rewrite Hlen. cbn [length put32]. lia.
+    + apply Forall_forall. intros x Hx. apply in_map_iff in Hx. destruct Hx as [o [<- Ho]]. apply Hleaf. eapply Forall_forall; eassumption.
+Qed.
+Lemma tlv6_all_enc6 : forall os, Forall opt6_ok os -> tlv6_all (enc6 os) = os.
+Proof.
+  intros os H. unfold tlv6_all. pose proof (enc6_length_ge os) as Hge.
+  replace (S (length (enc6 os))) with (length os + (S (length (enc6 os)) - length os))%nat by lia.
+  rewrite <- (app_nil_r (enc6 os)) at 2. rewrite tlv6_enc6 by assumption.
+  destruct (S (length (enc6 os)) - length os)%nat; cbn [tlv6]; apply app_nil_r.
+Qed.
+Lemma v6_lifetimes_decoded : forall v h4 os pref valid, length h4 = 4%nat -> Forall opt6s_ok os ->
+  let out := rewrite_v6_lifetimes v (h4 ++ enc6 (map enc_o os)) pref valid in
+  let os' := map (spec_o (pref_t1 pref) (pref_t2 v pref) pref valid) os in
+  firstn 4 out = h4 /\ tlv6_all (skipn 4 out) = map enc_o os' /\
+  forall c iaid t12 subs, In (IA c iaid t12 subs) os' ->
+    t12 = put32 (pref_t1 pref) ++ put32 (pref_t2 v pref) /\
+    tlv6_all (skipn 12 (snd (enc_o (IA c iaid t12 subs)))) = subs /\
+    exists subs0 t0, In (IA c iaid t0 subs0) os /\ subs = map (leaf pref valid) subs0.
+Proof.
+  intros v h4 os pref valid L4 Hok out os'. subst out. rewrite rewrite_v6_lifetimes_nested by assumption. fold os'.
+  split; [apply firstn_exact; assumption|]. split.
+  - rewrite skipn_exact by assumption. apply tlv6_all_enc6.
+    apply Forall_forall. intros x Hx. apply in_map_iff in Hx. destruct Hx as [o' [<- Ho']].
+    subst os'. apply in_map_iff in Ho'. destruct Ho' as [o [<- Ho]]. apply spec_o_ok. eapply Forall_forall; eassumption.
+  - intros c iaid t12 subs Hin. subst os'. apply in_map_iff in Hin. destruct Hin as [o [Eo Ho]].
+    pose proof (proj1 (Forall_forall _ _) Hok o Ho) as Oo.
+    destruct o as [c0 d0|c0 iaid0 t0 subs0]; cbn [spec_o] in Eo; [destruct (leaf pref valid (c0, d0)); discriminate|].
+    injection Eo as <- <- <- <-. split; [reflexivity|]. split.
+    + cbn [enc_o snd]. cbn [opt6s_ok] in Oo. destruct Oo as [_ [Li [_ [Os [Ns _]]]]].
+      match goal with |- context [iaid0 ++ ?t ++ enc6 _] => change t with (put32 (pref_t1 pref) ++ put32 (pref_t2 v pref)) end.
+      replace (iaid0 ++ (put32 (pref_t1 pref) ++ put32 (pref_t2 v pref)) ++ enc6 (map (leaf pref valid) subs0))
+        with ((iaid0 ++ put32 (pref_t1 pref) ++ put32 (pref_t2 v pref)) ++ enc6 (map (leaf pref valid) subs0))
+        by (rewrite <- !app_assoc; reflexivity).
+      rewrite skipn_exact by (rewrite !app_length, Li; reflexivity). apply tlv6_all_enc6.
+      pose proof (spec_o_ok (pref_t1 pref) (pref_t2 v pref) pref valid (IA c0 iaid0 t0 subs0)) as S0. cbn [spec_o] in S0.
+      apply S0. cbn [opt6s_ok]. cbn [opt6s_ok] in *. exact (proj1 (Forall_forall _ _) Hok _ Ho).
+    + exists subs0, t0. split; [exact Ho|reflexivity].
+Qed.
+
+(* ================================================================== the DHCPv4 relay pipeline, composed *)
+Definition relay_hdr4 (hdr g : bytes) : bytes :=
+  firstn 3 hdr ++ [(nth 3 hdr 0 + 1) mod 256] ++ firstn 20 (skipn 4 hdr) ++ g ++ skipn 28 hdr.
+Lemma relay_hdr4_length : forall hdr g, length hdr = 240%nat -> length g = 4%nat -> length (relay_hdr4 hdr g) = 240%nat.
+Proof. intros. unfold relay_hdr4. rewrite !app_length, !firstn_length, !skipn_length. cbn [length]. lia. Qed.
+Lemma giaddr_hops_wf : forall hdr its tl gi g, length hdr = 240%nat -> to4 gi = Some g ->
+  increment_hops (set_giaddr (wf_pkt hdr its tl) gi) = wf_pkt (relay_hdr4 hdr g) its tl.
+Proof.
+  intros hdr its tl gi g Lh Hg. pose proof (to4_length _ _ Hg) as Lg.
+  rewrite set_giaddr_spec with (g := g) by (try assumption; unfold wf_pkt; rewrite app_length; lia).
+  unfold wf_pkt.
+  rewrite firstn_app, Lh. change (24 - 240)%nat with 0%nat. rewrite firstn_O, app_nil_r.
+  rewrite skipn_app, Lh. change (28 - 240)%nat with 0%nat. rewrite skipn_O.
+  assert (Eh : firstn 24 hdr = firstn 3 hdr ++ [nth 3 hdr 0] ++ firstn 20 (skipn 4 hdr)).
+  { rewrite <- (firstn_skipn 3 (firstn 24 hdr)). rewrite firstn_firstn. change (Nat.min 3 24) with 3%nat. f_equal.
+    destruct hdr as [|h0 [|h1 [|h2 [|h3 r]]]]; try (cbn in Lh; lia). cbn [firstn skipn nth app]. reflexivity. }
+  rewrite Eh. unfold relay_hdr4.
+  set (A := firstn 3 hdr). set (bb := nth 3 hdr 0). set (M := firstn 20 (skipn 4 hdr)).
+  set (R := (skipn 28 hdr ++ enc its ++ tl)).
+  assert (LA : length A = 3%nat) by (subst A; rewrite firstn_length; lia).
+  replace ((A ++ [bb] ++ M) ++ g ++ R) with (A ++ [bb] ++ M ++ g ++ R) by (rewrite <- !app_assoc; reflexivity).
+  rewrite increment_hops_spec by (rewrite !app_length, LA; cbn [length]; lia).
+  rewrite (firstn_exact A) by assumption.
+  rewrite app_nth2 by lia. rewrite LA. change (nth (3 - 3) ([bb] ++ M ++ g ++ R) 0) with bb.
+  replace (A ++ [bb] ++ M ++ g ++ R) with ((A ++ [bb]) ++ M ++ g ++ R) by (rewrite <- !app_assoc; reflexivity).
+  rewrite skipn_exact by (rewrite app_length, LA; reflexivity).
+  subst R. rewrite <- !app_assoc. reflexivity.
+Qed.
+
+Lemma relay_forward4_faithful : forall hdr its tl gi g d, length hdr = 240%nat -> Forall item_ok its -> wf_tail tl ->
+  to4 gi = Some g -> (length d <= 255)%nat ->
+  exists out, relay_forward4 Repaired (wf_pkt hdr its tl) gi (82 :: blen d :: d) Replace = Ok out /\
+    out = wf_pkt (relay_hdr4 hdr g) (drop_code 82 its ++ [Opt 82 d]) tl /\
+    ref_options out = (filter (not_code 82) (opts_of its) ++ [(82, d)], tail_end tl) /\
+    firstn 4 (skipn 24 out) = g /\ nth 3 out 0 = (nth 3 hdr 0 + 1) mod 256 /\
+    firstn 3 out = firstn 3 hdr /\ firstn 20 (skipn 4 out) = firstn 20 (skipn 4 hdr) /\ firstn 212 (skipn 28 out) = skipn 28 hdr.
+Proof.
+  intros hdr its tl gi g d Lh Hok Htl Hg Hd. pose proof (to4_length _ _ Hg) as Lg.
+  pose proof (relay_hdr4_length hdr g Lh Lg) as Lh'.
+  unfold relay_forward4. rewrite giaddr_hops_wf with (g := g) by assumption.
+  destruct (opt82_replace_faithful (relay_hdr4 hdr g) its tl d Lh' Hok Htl Hd) as [out [Eo [Eh Er]]].
+  exists out. split; [exact Eo|].
+  assert (Eout : out = wf_pkt (relay_hdr4 hdr g) (drop_code 82 its ++ [Opt 82 d]) tl).
+  { rewrite insert_option82_repaired in Eo by assumption. injection Eo as <-. unfold replaced82, wf_pkt. rewrite enc_app, enc_single, <- !app_assoc. reflexivity. }
+  split; [exact Eout|]. split; [exact Er|].
+  assert (L3 : length (firstn 3 hdr) = 3%nat) by (rewrite firstn_length; lia).
+  assert (L20 : length (firstn 20 (skipn 4 hdr)) = 20%nat) by (rewrite firstn_length, skipn_length; lia).
+  assert (L212 : length (skipn 28 hdr) = 212%nat) by (rewrite skipn_length; lia).
+  rewrite Eout. unfold wf_pkt, relay_hdr4. rewrite <- !app_assoc. repeat split.
+  - match goal with |- firstn 4 (skipn 24 ?l) = _ =>
+      replace l with ((firstn 3 hdr ++ [(nth 3 hdr 0 + 1) mod 256] ++ firstn 20 (skipn 4 hdr)) ++ g ++
+                      (skipn 28 hdr ++ enc (drop_code 82 its ++ [Opt 82 d]) ++ tl)) by (rewrite <- !app_assoc; reflexivity) end.
+    apply block; [rewrite !app_length, L3, L20; reflexivity|assumption].
+  - rewrite app_nth2 by lia. rewrite L3. reflexivity.
+  - apply firstn_exact. assumption.
+  - match goal with |- firstn 20 (skipn 4 ?l) = _ =>
+      replace l with ((firstn 3 hdr ++ [(nth 3 hdr 0 + 1) mod 256]) ++ firstn 20 (skipn 4 hdr) ++
+                      (g ++ skipn 28 hdr ++ enc (drop_code 82 its ++ [Opt 82 d]) ++ tl)) by (rewrite <- !app_assoc; reflexivity) end.
+    apply block; [rewrite app_length, L3; reflexivity|assumption].
+  - match goal with |- firstn 212 (skipn 28 ?l) = _ =>
+      replace l with ((firstn 3 hdr ++ [(nth 3 hdr 0 + 1) mod 256] ++ firstn 20 (skipn 4 hdr) ++ g) ++ skipn 28 hdr ++
+                      (enc (drop_code 82 its ++ [Opt 82 d]) ++ tl)) by (rewrite <- !app_assoc; reflexivity) end.
+    apply block; [rewrite !app_length, L3, L20, Lg; reflexivity|assumption].
+Qed.
+
+(* way back: the server's reply (carrying the echoed option 82) through StripOption82 and the proxy rewrite *)
+Definition back_other (o : N * bytes) : bool := (proxy_other o && not_code 82 o)%bool.
+Lemma proxy_back4_faithful : forall hdr its tl gi g lease, length hdr = 240%nat -> Forall item_ok its -> wf_tail tl ->
+  to4 gi = Some g ->
+  exists r its', strip_option82 Repaired (wf_pkt hdr its tl) = Ok (wf_pkt hdr (drop_code 82 its) tl) /\
+    rewrite_for_proxy Repaired (wf_pkt hdr (drop_code 82 its) tl) gi lease = Ok r /\ r = wf_pkt hdr its' tl /\ Forall item_ok its' /\
+    filter (has_code 82) (opts_of its') = [] /\
+    filter (has_code 54) (opts_of its') = [(54, g)] /\ filter (has_code 51) (opts_of its') = [(51, put32 lease)] /\
+    filter (has_code 58) (opts_of its') = [(58, put32 (lease / 2))] /\
+    filter (has_code 59) (opts_of its') = [(59, put32 (lease * 7 / 8))] /\
+    filter back_other (opts_of its') = filter back_other (opts_of its).
+Proof.
+  intros hdr its tl gi g lease Lh Hok Htl Hg.
+  pose proof (drop_code_ok 82 its Hok) as Hok'.
+  destruct (rewrite_for_proxy_repaired hdr (drop_code 82 its) tl gi g lease Lh Hok' Htl Hg) as [r [its' [Er [E [K [H54 [H51 [H58 [H59 Ho]]]]]]]]].
+  exists r, its'. split; [apply strip_option82_repaired; assumption|]. split; [exact Er|]. split; [exact E|]. split; [exact K|].
+  assert (Hb : forall o, back_other o = true -> proxy_other o = true) by (intros o H; apply andb_true_iff in H; tauto).
+  assert (F82 : forall l : list (N * bytes), filter (has_code 82) l = filter (has_code 82) (filter proxy_other l)).
+  { intros l. symmetry. apply filter_filter_imp. intros o H. unfold has_code in H. apply N.eqb_eq in H.
+    unfold proxy_other, not_code. rewrite H. reflexivity. }
+  repeat split; try assumption.
+  - rewrite F82, Ho, <- F82. rewrite opts_of_drop. fold (not_code 82). apply filter_not_has.
+  - rewrite <- (filter_filter_imp back_other proxy_other (opts_of its')) by assumption. rewrite Ho.
+    rewrite filter_filter_imp by assumption. rewrite opts_of_drop. fold (not_code 82).
+    apply filter_filter_imp. intros o H. apply andb_true_iff in H. tauto.
+Qed.
